@@ -1,0 +1,48 @@
+//go:build verif
+
+// Contracts for package encoding, read by /verif/engine (govc). Comment-only.
+package encoding
+
+//@ func (s *state) scanKeyValue(data []byte, el *fix.KeyValue) (err error)
+//@   safety[C11]
+//@   requires s != nil && el != nil && el.Value != nil
+//@   modifies fix.Value.*
+
+//@ func splitGroup(line []byte, firstTag []byte) (array [][]byte)
+//@   safety[C11]
+//@   terminates[C11]
+//@   requires len(line) >= 1 && len(firstTag) >= 1
+//@   ensures[C11] len(array) >= 1
+//@   loop 1:
+//@     invariant[C11] len(line) >= 1 && imp(!ok, len(array) >= 1)
+//@     decreases ite(ok, len(line) + 1, 0)
+
+//@ func (s *state) unmarshal(data []byte, fixItem fix.Item) (err error)
+//@   safety[C11]
+//@   terminates[C11]
+//@   requires s != nil && wfItem(fixItem)
+//@   unfold wf_item(fixItem)
+//@   modifies fix.Value.*, fix.Group.items
+//@   call unmarshal#2: lemma wf_kv_intro(noKv)
+//@   loop 1:
+//@     invariant[C11] 0 <= i
+//@     decreases cnt - i
+//@   loop 2:
+//@     invariant[C11] 0 <= iter
+//@     decreases len(entry) - iter
+//@     lemma wf_seq_at(entry, iter); wf_item(entry[iter])
+//@   loop 3:
+//@     invariant[C11] 0 <= iter
+//@     decreases len(component) - iter
+//@     lemma wf_seq_at(component, iter); wf_item(component[iter])
+
+//@ func unmarshalItems(msg fix.Items, data []byte, strict bool) (err error)
+//@   safety[C11]
+//@   terminates[C11]
+//@   requires wfSeq(msg)
+//@   modifies fix.Value.*, fix.Group.items
+//@   call unmarshal#2: lemma wf_kv_intro(noKv)
+//@   loop 1:
+//@     invariant[C11] 0 <= iter
+//@     decreases len(msg) - iter
+//@     lemma wf_seq_at(msg, iter)
